@@ -147,10 +147,14 @@ Inductive sev :=
 | SvInvoke (h : nat) (unary : bool) (id : Z) (m : mkind) (payload md : Z)
 | SvOp (h : nat) (r : opres)
 | SvRet (h : nat)                     (* the handler function returned *)
+| SvTaken (f : frame)                 (* ghost: the writer took f from writeChan *)
 | SvWrite (f : frame)                 (* the transport accepted f *)
+| SvWFail (f : frame)                 (* ghost: the transport refused f *)
 | SvFwd (h : nat) (f : frame)         (* ghost: f put into h's queue *)
 | SvDrop (h : nat) (f : frame)        (* ghost: f dropped, handler gone *)
 | SvTake (h : nat) (f : frame)        (* ghost: h took f from its queue *)
+| SvUnreg (h : nat)                   (* ghost: registry entry of handler h deleted *)
+| SvAbandon (f : frame)               (* ghost: the read loop left serve while holding f *)
 | SvServeRet (e : serr).
 
 (* ---------- state ---------- *)
@@ -367,7 +371,7 @@ Definition r_rd_offer (s : state) : option state :=
 
 Definition r_rd_offer_ctx (s : state) : option state :=
   match rd s with
-  | RdOffer _ => if hctx_done s then Some (exit_serve s SCtx) else None
+  | RdOffer f => if hctx_done s then Some (add_log (exit_serve s SCtx) [SvAbandon f]) else None
   | _ => None
   end.
 
@@ -397,13 +401,14 @@ Definition r_rd_fwd_gone (s : state) : option state :=
 
 Definition r_rd_fwd_cctx (s : state) : option state :=
   match rd s with
-  | RdFwd _ _ => if cctx_done s then Some (exit_serve s SCtx) else None
+  | RdFwd _ f => if cctx_done s then Some (add_log (exit_serve s SCtx) [SvAbandon f]) else None
   | _ => None
   end.
 
 Definition r_rd_fwd_hctx (s : state) : option state :=
   match rd s with
-  | RdFwd _ _ => if hctx_done s then Some (exit_serve s (if cause_write s then SWrite else SCtx)) else None
+  | RdFwd _ f => if hctx_done s then Some (add_log (exit_serve s (if cause_write s then SWrite else SCtx)) [SvAbandon f])
+                 else None
   | _ => None
   end.
 
@@ -411,14 +416,15 @@ Definition r_rd_fwd_hctx (s : state) : option state :=
 Definition r_rd_rst (s : state) : option state :=
   match rd s, wr s with
   | RdRst f, WrSel =>
-      if has_hdr f then Some (set_wr (set_rd s RdRead) (WrWrite (rst_reply f)))
+      if has_hdr f then Some (add_log (set_wr (set_rd s RdRead) (WrWrite (rst_reply f))) [SvTaken (rst_reply f)])
       else Some (set_crashed s)
   | _, _ => None
   end.
 
 Definition r_rd_rst_ctx (s : state) : option state :=
   match rd s with
-  | RdRst _ => if hctx_done s then Some (exit_serve s (if cause_write s then SWrite else SCtx)) else None
+  | RdRst f => if hctx_done s then Some (add_log (exit_serve s (if cause_write s then SWrite else SCtx)) [SvAbandon f])
+               else None
   | _ => None
   end.
 
@@ -458,7 +464,7 @@ Definition r_wk_exit (w : nat) (s : state) : option state :=
 
 Definition r_wk_hand (w : nat) (s : state) : option state :=
   match nth_error (wk s) w, wr s with
-  | Some (WkHand f), WrSel => Some (set_wr (set_wk s w WkIdle) (WrWrite f))
+  | Some (WkHand f), WrSel => Some (add_log (set_wr (set_wk s w WkIdle) (WrWrite f)) [SvTaken f])
   | _, _ => None
   end.
 
@@ -478,9 +484,9 @@ Definition r_wr_exit (s : state) : option state :=
 Definition r_wr_write (s : state) : option state :=
   match wr s with
   | WrWrite f =>
-      if wfail s then Some (set_wr (cancel_conn s true) WrSel)
+      if wfail s then Some (add_log (set_wr (cancel_conn s true) WrSel) [SvWFail f])
       else if wblock s then
-             if hctx_done s then Some (set_wr (cancel_conn s true) WrSel) else None
+             if hctx_done s then Some (add_log (set_wr (cancel_conn s true) WrSel) [SvWFail f]) else None
       else Some (add_log (set_wr s WrSel) [SvWrite f])
   | _ => None
   end.
@@ -512,10 +518,11 @@ Definition r_h_send (h : nat) (s : state) : option state :=
   match nth_error (hs s) h, wr s with
   | Some k, WrSel =>
       match h_pc k with
-      | HInSend f KMsg => Some (add_log (set_wr (set_h s h (hset_pc k HGate)) (WrWrite f)) [SvOp h OOk])
+      | HInSend f KMsg => Some (add_log (set_wr (set_h s h (hset_pc k HGate)) (WrWrite f)) [SvTaken f; SvOp h OOk])
       | HInSend f KHdr =>
-          Some (add_log (set_wr (set_h s h (hset_pc (hset_md k true (h_hdr k) (h_trl k)) HGate)) (WrWrite f)) [SvOp h OOk])
-      | HInSend f KTrl => Some (set_wr (set_h s h (hset_pc (hset_cancel k) HUnreg)) (WrWrite f))
+          Some (add_log (set_wr (set_h s h (hset_pc (hset_md k true (h_hdr k) (h_trl k)) HGate)) (WrWrite f))
+                        [SvTaken f; SvOp h OOk])
+      | HInSend f KTrl => Some (add_log (set_wr (set_h s h (hset_pc (hset_cancel k) HUnreg)) (WrWrite f)) [SvTaken f])
       | _ => None
       end
   | _, _ => None
@@ -552,7 +559,7 @@ Definition r_h_unreg (h : nat) (s : state) : option state :=
             let s1 := set_h s h (hset_pc k HDead) in
             match find_reg (fid (h_req k)) (hs s1) 0 with
             | Some g => match nth_error (hs s1) g with
-                        | Some kg => Some (set_h s1 g (hunregister kg))
+                        | Some kg => Some (add_log (set_h s1 g (hunregister kg)) [SvUnreg g])
                         | None => Some s1
                         end
             | None => Some s1
